@@ -5,7 +5,8 @@ ERR   the two conversion functions answer Ok only on an exact match of the curso
       fall through to Err; no undischarged panic source inside them
 DIV   create_milestones is called only under interval > 0
 KNOB  milestone_interval is read only where milestones are created (plus plumbing)
-MILE  every consumer of the raw position index filters milestone-only entries"""
+MILE  every consumer of the raw position index filters milestone-only entries
+INVALIDATE check_mutation resets every text-derived field under no foreign guard"""
 import json
 import os
 import re
@@ -247,6 +248,84 @@ def run(ctx):
             r_mile.hit("raw:" + acc)
             ctx.report(r_mile, "raw-public:" + acc, "public accessor %s exposes milestone entries (%s): its answer depends on milestone_interval" % (acc, why), prog.bodies[acc].file, prog.bodies[acc].line)
     r_mile.notes.append("consumers of raw accessors: %d" % ncons)
+    invalidate_rule(ctx, syn)
+
+
+# ---------------------------------------------------------------------- INVALIDATE
+def self_fields(node):
+    out = set()
+    for n in walk(node):
+        if n.get("k") == "field" and strip(n["base"]).get("k") == "path" and strip(n["base"])["path"] == ["self"]:
+            out.add(n["member"])
+    return out
+
+
+def invalidate_rule(ctx, syn):
+    """Replacing the text of a resource throws away everything computed from the old text.  The derived fields are read
+    off the code: what create_milestones and the TextSelection insertion callback write, and the text selection store."""
+    r = ctx.rule("C12.INVALIDATE", "TextResource::check_mutation resets every field derived from the text (position index, byte map, text selections) whenever text is replaced: each reset is unconditional or guarded by that field's own emptiness only")
+    cm = syn.fn("check_mutation", self_ty="TextResource")
+    ctx.functions_analysed.add(cm.qual)
+    derived = {}
+    writers = [("create_milestones", syn.find_fns("create_milestones", self_ty="TextResource")),
+               ("inserted", [f for f in syn.find_fns("inserted", self_ty="TextResource") if "TextSelection" in (f.trait or "")]),
+               ("store_mut", [f for f in syn.find_fns("store_mut", self_ty="TextResource") if "TextSelection" in (f.trait or "")])]
+    for nm, fs in writers:
+        if len(fs) != 1:
+            ctx.anchor_missing(r, "TextResource::%s" % nm)
+            continue
+        f = fs[0]
+        ctx.functions_analysed.add(f.qual)
+        if nm == "store_mut":
+            for fld in self_fields(f.body):
+                derived.setdefault(fld, nm)
+            continue
+        for n in walk(f.body):
+            tgt = None
+            if n.get("k") == "mcall" and n["method"] in ("insert", "push", "entry", "extend", "push_back"):
+                tgt = n["recv"]
+            elif n.get("k") == "assign":
+                tgt = n["left"]
+            if tgt is not None:
+                for fld in self_fields(tgt):
+                    derived.setdefault(fld, nm)
+    derived.pop("text", None)
+    derived.pop("textlen", None)
+    derived.pop("changed", None)
+    ctx.floor(r, len(derived), 3, "fields derived from the text")
+    resets = {}
+
+    def visit(node, conds):
+        k = node.get("k") if isinstance(node, dict) else None
+        if k == "if":
+            visit(node["cond"], conds)
+            visit(node["then"], conds + [node["cond"]])
+            if node.get("else"):
+                visit(node["else"], conds + [node["cond"]])
+            return
+        if k == "assign":
+            for fld in self_fields(node["left"]):
+                resets.setdefault(fld, []).append(conds)
+        if k == "mcall" and node["method"] == "clear":
+            for fld in self_fields(node["recv"]):
+                resets.setdefault(fld, []).append(conds)
+        if k == "closure":
+            return
+        from synq import children
+        for c in children(node):
+            visit(c, conds)
+    visit(cm.body, [])
+    for fld, why in sorted(derived.items()):
+        r.hit(fld, sample={"field": fld, "derived_because_written_by": why, "resets": len(resets.get(fld, []))})
+        if fld not in resets:
+            ctx.report(r, "no-reset:" + fld, "TextResource::check_mutation does not reset self.%s (written by %s from the text): entries computed for the old text survive a text replacement and answer conversions for the new one" % (fld, why), cm.file, cm.line)
+            continue
+        for conds in resets[fld]:
+            foreign = set()
+            for c in conds:
+                foreign |= self_fields(c) - {fld, "text"}
+            if foreign:
+                ctx.report(r, "foreign-guard:" + fld, "TextResource::check_mutation resets self.%s only under a condition on self.%s: when that is empty but self.%s is not (milestones exist without any text selection), stale entries for the old text survive" % (fld, "/".join(sorted(foreign)), fld), cm.file, cm.line)
 
 
 # ---------------------------------------------------------------------- EXACT
